@@ -389,7 +389,7 @@ def opaque_pairs(ctx: Ctx) -> None:
 def c02_selftest(ctx: Ctx) -> None:
     """Binding demonstration: a feature that peeks at the whole-path maximum must be flagged by the pair replay."""
     probe = Ctx.__new__(Ctx)
-    probe.__dict__.update({"violations": [], "findings": [], "known_hits": {}, "evaluations": 0, "distinct": set(),
+    probe.__dict__.update({"_per_key": {}, "violations": [], "findings": [], "known_hits": {}, "evaluations": 0, "distinct": set(),
                            "sections": {}, "traces_validated": 0, "samples": []})
     recs = [dict(r, cfg=dict(r["cfg"], feats=["peek_max"], W=[[1]] * len(r["cfg"]["W"]))) for r in ctx._pair_recs
             if len(r["cfg"]["W"]) == 1][:400]
@@ -404,7 +404,7 @@ def c03_selftest(ctx: Ctx) -> None:
     paths = [r["m"] for r in recs]
     T = len(paths[0]["spot"])
     probe = Ctx.__new__(Ctx)
-    probe.__dict__.update({"evaluations": 0, "distinct": set(), "sections": {}})
+    probe.__dict__.update({"_per_key": {}, "evaluations": 0, "distinct": set(), "sections": {}})
     bad = compare_feature_forms(probe, "lagging_moneyness", cfg, paths, T, 1, torch.float64)
     ctx.selftest("a feature whose get(i) lags get(None) by one column is rejected", bad is not None)
     recs = [r for r in ctx._hedge_recs if r["cfg"]["feats"] == ["prev_hedge"] and len(r["m"]["spot"]) == 3]
